@@ -84,12 +84,9 @@ def generate(files: dict, main: list, *, options: dict | None = None, config_mut
         cfg = GeneratorConfig()
         cfg.output.package = pkg
         cfg.output.structure_style = StructureStyle.SINGLE_PACKAGE
-        for k, v in (options or {}).items():
-            obj = cfg.output
-            parts = k.split(".")
-            for part in parts[:-1]:
-                obj = getattr(obj, part)
-            setattr(obj, parts[-1], v)
+        # the library's own way of applying dotted options programmatically (it resolves configuration conflicts,
+        # e.g. order=True needs eq=True, exactly like the command line does)
+        cfg.output.update(**(options or {}))
         if config_mutator:
             config_mutator(cfg)
         with warnings.catch_warnings():
